@@ -317,6 +317,37 @@ pub fn add_config_sweeps(p: &mut Plan, q: bool) {
             }
         }));
     }
+    // (a') runs of one byte value at the end of a value / reason (word-at-a-time trimming tricks
+    // that only an option switches on), with and without blanks behind them
+    for (e, pre, post) in [
+        (Entry::RespCfg, &b"HTTP/1.1 200 OK\r\nX-Title: Resum"[..], &b"\r\nB: 1\r\n\r\n"[..]),
+        (Entry::ReqCfg, b"GET / HTTP/1.1\r\nX-Title: Resum", b"\r\n\r\n"),
+        (Entry::RespCfg, b"HTTP/1.1 200 Resum", b"\r\n\r\n"),
+        (Entry::RespCfg, b"HTTP/1.1 200 OK\r\nA:", b"\n\n"),
+    ] {
+        tasks.push(Box::new(move |ck: &mut Checker| {
+            let mut spec = TreeSpec { lane: Lane::new(e, 0, 4), ctx: Vec::new(), alphabet: vec![], depth: 0, extra: 0, companions: Companions::AllConfigs };
+            for x in [0x80u8, 0xa0, 0xa1, 0xa9, 0xc3, 0xe9, 0xff, b'!', b'~', b'\t', b' ', b'a'] {
+                for k in 0..=33usize {
+                    for blanks in [0usize, 1, 7, 8, 9] {
+                        for first in [x, 0xc3] {
+                            spec.ctx.clear();
+                            spec.ctx.extend_from_slice(pre);
+                            for i in 0..k {
+                                spec.ctx.push(if i == 0 { first } else { x });
+                            }
+                            spec.ctx.extend(std::iter::repeat(b' ').take(blanks));
+                            spec.ctx.extend_from_slice(post);
+                            run_tree(ck, &spec, None);
+                        }
+                    }
+                    if ck.full() {
+                        return;
+                    }
+                }
+            }
+        }));
+    }
     // (b) long fields of the default lanes
     let step = if q { 9 } else { 2 };
     for f in FIELDS.iter().filter(|f| f.cfg == 0 && (f.entry.is_req() || f.entry.is_resp())) {
@@ -348,7 +379,7 @@ pub fn add_config_sweeps(p: &mut Plan, q: bool) {
         }
     }
     p.phases.push(Phase { label: "S2c: default-accepted whitespace runs (to 300), spaces before every first reason byte, long fields — under all 128 configs".into(), backend: Backend::Native, tasks });
-    p.bounds.push(format!("C15 sweeps: SP^n X after the status code for n in 0..=40 and {{47,63..66,100,127..130,255..259,300}} × all 256 X × 3 tails; SP/HTAB runs of those lengths (4 patterns) at 7 default-grammar positions; long fields (length 60..=300 step {step}, 13 boundary bytes at every position, 3 remainders) — every default-Complete input under the other 127 configurations"));
+    p.bounds.push(format!("C15 sweeps: SP^n X after the status code for n in 0..=40 and {{47,63..66,100,127..130,255..259,300}} × all 256 X × 3 tails; SP/HTAB runs of those lengths (4 patterns) at 7 default-grammar positions; runs of 0..=33 equal bytes (12 values) at the end of a value / reason with 0 / 1 / 7 / 8 / 9 blanks behind; long fields (length 60..=300 step {step}, 13 boundary bytes at every position, 3 remainders) — every default-Complete input under the other 127 configurations"));
 }
 
 /// C16 on template mutants.
@@ -429,7 +460,7 @@ pub fn add_entry_long(p: &mut Plan, q: bool) {
             }
         }));
     }
-    p.phases.push(Phase { label: format!("S2c/S8: header counts 0..={} and 99..513 × 5 shapes × 4 capacities × 4 tails, and {} size families × 5 sizes × up to 8 variants × 2 capacities, on every entry point of the kind", kmax, nf), backend: Backend::Native, tasks });
+    p.phases.push(Phase { label: format!("S2c/S8: header counts 0..={} and 99..513 × 5 shapes × 4 capacities × 4 tails, and {} size families × 5 sizes × up to 10 variants × 2 capacities, on every entry point of the kind", kmax, nf), backend: Backend::Native, tasks });
     p.bounds.push(format!("entry-point agreement on long inputs: k = 0..={} and {{99..102,127..130,255..257,300,511,513}} minimal header lines (5 shapes, capacities k-1, k, k+1, 2k+4, 4 tails); size families at 600 / 4200 / 7900 / 20000 / 70000 bytes (complete, truncated, erroneous, with body; capacity 1 and enough)", kmax));
 }
 
@@ -720,6 +751,23 @@ pub fn add_pair_sweeps(p: &mut Plan, q: bool, backends: &[Backend], names: &[&st
 /// where a run may or may not occur: fast paths that skip blanks in blocks depend on the run length.
 const WS_LONG: usize = 300;
 
+/// (entry, config, bytes before the run, bytes after it) for the foreign-byte run sweep
+fn ws_foreign_slots() -> Vec<(Entry, u8, &'static [u8], &'static [u8])> {
+    vec![
+        (Entry::RespCfg, C_SPACE_BEFORE_FIRST, b"HTTP/1.1 200 OK\r\n", b"A: b\r\n\r\n"),
+        (Entry::RespCfg, C_SPACE_BEFORE_FIRST, b"HTTP/1.1 200 OK\r\n", b"\r\n\r\n"),
+        (Entry::ReqCfg, C_SPACE_BEFORE_FIRST | C_IGNORE_REQ, b"GET / HTTP/1.1\r\n", b"\r\nA: b\r\n\r\n"),
+        (Entry::RespCfg, C_SPACE_BEFORE_FIRST | C_IGNORE_RESP | C_FOLDING, b"HTTP/1.1 200 OK\r\n", b"\r\nA: b\r\n\r\n"),
+        (Entry::ReqCfg, 0, b"GET / HTTP/1.1\r\nConnection:", b"close\r\n\r\n"),
+        (Entry::ReqCfg, 0, b"GET / HTTP/1.1\r\nConnection: close", b"\r\n\r\n"),
+        (Entry::RespCfg, C_SPACES_AFTER_NAME, b"HTTP/1.1 200 OK\r\nName", b": v\r\n\r\n"),
+        (Entry::RespCfg, C_FOLDING, b"HTTP/1.1 200 OK\r\nF: a\r\n", b"b\r\n\r\n"),
+        (Entry::ReqCfg, C_MULTI_REQ, b"GET", b"/ HTTP/1.1\r\n\r\n"),
+        (Entry::RespCfg, C_MULTI_RESP, b"HTTP/1.1 200", b"OK\r\n\r\n"),
+        (Entry::Chunk, 0, b"1f", b";x\r\n"),
+    ]
+}
+
 pub fn add_whitespace_run_sweep(p: &mut Plan, _q: bool) {
     struct Slot {
         entry: Entry,
@@ -782,6 +830,67 @@ pub fn add_whitespace_run_sweep(p: &mut Plan, _q: bool) {
                     if ck.full() {
                         return;
                     }
+                }
+            }
+        }));
+    }
+    // a run with one foreign byte inside it (block-wise blank skipping with a sloppy predicate)
+    for sl in ws_foreign_slots() {
+        tasks.push(Box::new(move |ck: &mut Checker| {
+            let lane = Lane::new(sl.0, sl.1, 4);
+            let foreign: [u8; 20] = [0x00, 0x01, 0x08, 0x0b, 0x0c, 0x1f, b'!', b'(', b')', b'"', b'0', b'@', b'A', b'`', 0x7f, 0x80, 0xa0, 0xff, b':', b'\r'];
+            let mut buf = Vec::new();
+            for l in 1..=24usize {
+                for pat in 0..3 {
+                    for pos in 0..l {
+                        for &x in &foreign {
+                            buf.clear();
+                            buf.extend_from_slice(sl.2);
+                            for i in 0..l {
+                                buf.push(if i == pos { x } else { match pat { 0 => b' ', 1 => b'\t', _ => if i % 2 == 0 { b' ' } else { b'\t' } } });
+                            }
+                            buf.extend_from_slice(sl.3);
+                            one_shot(ck, &lane, &buf);
+                        }
+                    }
+                }
+                if ck.full() {
+                    return;
+                }
+            }
+        }));
+    }
+    // runs of one byte value (obs-text, edge-of-class bytes) at the end of a value or reason, with
+    // and without blanks behind them, under default and lenient options
+    for (e, cfg, pre, post) in [
+        (Entry::RespCfg, 0u8, &b"HTTP/1.1 200 OK\r\nX-Title: Resum"[..], &b"\r\nB: 1\r\n\r\n"[..]),
+        (Entry::RespCfg, C_FOLDING | C_SPACES_AFTER_NAME | C_IGNORE_RESP, b"HTTP/1.1 200 OK\r\nX-Title: Resum", b"\r\nB: 1\r\n\r\n"),
+        (Entry::RespCfg, C_FOLDING, b"HTTP/1.1 200 OK\r\nX: a\r\n Resum", b"\r\n\r\n"),
+        (Entry::ReqCfg, 0, b"GET / HTTP/1.1\r\nX-Title: Resum", b"\n\n"),
+        (Entry::Headers, 0, b"T:", b"\r\n\r\n"),
+        (Entry::RespCfg, 0, b"HTTP/1.1 200 Resum", b"\r\n\r\n"),
+        (Entry::RespCfg, C_MULTI_RESP, b"HTTP/1.1 200  ", b"\r\n\r\n"),
+    ] {
+        tasks.push(Box::new(move |ck: &mut Checker| {
+            let lane = Lane::new(e, cfg, 4);
+            let mut buf = Vec::new();
+            for x in [0x80u8, 0xa0, 0xa1, 0xa9, 0xc3, 0xe9, 0xff, b'!', b'~', b'\t', b' ', b'a'] {
+                for k in 0..=33usize {
+                    for blanks in [0usize, 1, 7, 8, 9] {
+                        for first in [x, 0xc3] {
+                            buf.clear();
+                            buf.extend_from_slice(pre);
+                            for i in 0..k {
+                                buf.push(if i == 0 { first } else { x });
+                            }
+                            buf.extend(std::iter::repeat(b' ').take(blanks));
+                            buf.extend_from_slice(post);
+                            one_shot(ck, &lane, &buf);
+                        }
+                    }
+                }
+                if ck.full() {
+                    return;
                 }
             }
         }));
@@ -892,7 +1001,7 @@ pub fn add_repetition_sweep(p: &mut Plan, _q: bool) {
 /// sequence straddles 8/16/32-byte block boundaries) and before 0..2 more target bytes.
 pub fn add_utf8_sweep(p: &mut Plan, q: bool, backends: &[Backend]) {
     let sigma: Vec<u8> = vec![0x7e, 0x80, 0x8f, 0x90, 0x9f, 0xa0, 0xbf, 0xc0, 0xc1, 0xc2, 0xdf, 0xe0, 0xe1, 0xec, 0xed, 0xee, 0xef, 0xf0, 0xf1, 0xf3, 0xf4, 0xf5, 0xff];
-    let prefixes: Vec<usize> = if q { vec![0, 5, 13, 29, 31] } else { vec![0, 1, 5, 6, 7, 13, 14, 15, 28, 29, 30, 31, 32, 61, 62, 63] };
+    let prefixes: Vec<usize> = if q { vec![0, 5, 13, 29, 31, 61, 125, 127, 253] } else { vec![0, 1, 5, 6, 7, 13, 14, 15, 28, 29, 30, 31, 32, 61, 62, 63, 93, 125, 126, 127, 128, 253, 254, 255] };
     for &b in backends {
         let mut tasks: Vec<TaskFn> = Vec::new();
         for &k in &prefixes {
@@ -1068,7 +1177,14 @@ fn long_posts(f: &Field) -> Vec<Vec<u8>> {
     } else {
         f.post
     };
-    for v in [&longv, &badv] {
+    // a NUL in a later VALUE: whatever the parser did with an earlier offending byte, the kind of
+    // error it ends with must still be that of the first one
+    let nulv: Vec<u8> = {
+        let mut v = b"Good: y\r\nK: v\x00w\r\n\r\n".to_vec();
+        v.extend(std::iter::repeat(b'b').take(100));
+        v
+    };
+    for v in [&longv, &badv, &nulv] {
         let mut a = stem.to_vec();
         a.extend_from_slice(v);
         out.push(a);
@@ -1182,7 +1298,7 @@ pub fn add_long_fields(p: &mut Plan, q: bool, backends: &[Backend], names: &[&st
                             // two cooperating bytes a vector lane (or several) apart: an in-class
                             // edge byte x and an out-of-class byte y at distance d, both orders
                             if !chain && (l == 130 || l == 200 || l == 300) {
-                                let xs: [u8; 4] = [0x09, 0x20, 0x21, 0xff];
+                                let xs: [u8; 5] = [0x09, 0x20, 0x21, 0x80, 0xff];
                                 let ys: [u8; 5] = [0x00, 0x0a, 0x0d, 0x1f, 0x7f];
                                 for p1 in 0..l {
                                     for d in [8usize, 16, 32, 64, 96, 128] {
@@ -1215,10 +1331,10 @@ pub fn add_long_fields(p: &mut Plan, q: bool, backends: &[Backend], names: &[&st
                 }
             }
         }
-        p.phases.push(Phase { label: format!("S2b': long fields, {} fields × 3 remainders × L≤{} × position × {} boundary bytes", fields.len(), lmax, if q { 13 } else { 32 }), backend: b, tasks });
+        p.phases.push(Phase { label: format!("S2b': long fields, {} fields × 4 remainders × L≤{} × position × {} boundary bytes", fields.len(), lmax, if q { 13 } else { 32 }), backend: b, tasks });
     }
     p.bounds.push(format!(
-        "S2b' long fields: {:?}, run length 71..={lmax} before the minimal remainder and 0..={lmax} before two 200-byte remainders (valid header lines + body; an invalid line first), one byte of a {}-value boundary set at every position (and none), complete and cut after the field{}, placement rotating with the length (guard-flush at either end; a page boundary 1 / 17 / 40 / 100 bytes into the data), backends {:?}",
+        "S2b' long fields: {:?}, run length 71..={lmax} before the minimal remainder and 0..={lmax} before three longer remainders (valid header lines + body; an invalid line first; a NUL in a later value), one byte of a {}-value boundary set at every position (and none), complete and cut after the field{}, placement rotating with the length (guard-flush at either end; a page boundary 1 / 17 / 40 / 100 bytes into the data), backends {:?}",
         fields.iter().map(|f| f.name).collect::<Vec<_>>(),
         if q { 13 } else { 32 },
         " (when a streaming oracle is armed: 4 (8) offending values and a chain of 18 (35) cuts around +128/+256 behind the field start and behind the offender; otherwise also, at lengths 130/200/300, an in-class edge byte {09,20,21,FF} and an out-of-class byte {00,0A,0D,1F,7F} at distance 8/16/32/64/96/128, both orders, every position)",
@@ -1516,6 +1632,53 @@ pub fn add_token_grids(p: &mut Plan, _q: bool, req: bool, resp: bool, hdr: bool)
 }
 
 
+/// Long fields in front of 20 KiB of further buffer (loops that are only entered when kilobytes are
+/// still to come): lengths 130 / 200 / 260 / 300, one byte of four values at every position.
+pub fn add_long_fields_huge_remainder(p: &mut Plan, _q: bool, backends: &[Backend], names: &[&str]) {
+    let fields: Vec<Field> = FIELDS.iter().filter(|f| f.name != "chunk-digits" && f.name != "chunk-ext" && (names.is_empty() || names.contains(&f.name))).cloned().collect();
+    for &b in backends {
+        let mut tasks: Vec<TaskFn> = Vec::new();
+        for f in fields.iter() {
+            for l in [130usize, 200, 260, 300] {
+                let f = *f;
+                tasks.push(Box::new(move |ck: &mut Checker| {
+                    let lane = Lane { backend: b, ..Lane::new(f.entry, f.cfg, 8) };
+                    let mut buf: Vec<u8> = Vec::with_capacity(22000);
+                    buf.extend_from_slice(f.pre);
+                    buf.extend(std::iter::repeat(f.fill).take(l));
+                    buf.extend_from_slice(f.post);
+                    let head = buf.len();
+                    buf.extend(std::iter::repeat(b'b').take(20 * 1024));
+                    let fs = f.pre.len();
+                    for pos in 0..=l {
+                        for v in [0x00u8, 0x09, 0x0a, 0x7f] {
+                            if pos < l {
+                                buf[fs + pos] = v;
+                            }
+                            // (the reference machine is absorbing once the head is decided: the body
+                            // need not be fed to it)
+                            let mut m = Model::for_entry(lane.entry, lane.cfg, lane.cap);
+                            m.feed(&buf[..head]);
+                            ck.eval(&lane, &buf, Some(&m), None);
+                            if pos == l {
+                                break;
+                            }
+                        }
+                        if pos < l {
+                            buf[fs + pos] = f.fill;
+                        }
+                        if ck.full() {
+                            return;
+                        }
+                    }
+                }));
+            }
+        }
+        p.phases.push(Phase { label: format!("S2b'': {} long fields (130/200/260/300) in front of 20 KiB of buffer × position × 4 bytes", fields.len()), backend: b, tasks });
+    }
+    p.bounds.push(format!("S2b'' long fields with 20 KiB behind the head: {:?}, lengths 130/200/260/300, one byte of {{00,09,0A,7F}} at every position, backends {:?}", fields.iter().map(|f| f.name).collect::<Vec<_>>(), backends.iter().map(|b| b.name()).collect::<Vec<_>>()));
+}
+
 /// Fields that span three pages, with one offending byte at every offset within 40 bytes of each
 /// page boundary inside the buffer (buffer start page-aligned, and buffer end page-aligned): code
 /// that treats loads near a page boundary specially, with kilobytes of buffer still to come.
@@ -1777,6 +1940,31 @@ pub fn add_chunk_sweeps(p: &mut Plan, q: bool) {
             }
         }
     }));
+    // extension of every length 0..=40 followed by chunk data that has a bare CR / LF / NUL within
+    // 0..=15 bytes behind the line end (block-wise extension skippers look past the CRLF)
+    tasks.push(Box::new(move |ck: &mut Checker| {
+        let lane = Lane::new(Entry::Chunk, 0, 0);
+        let mut buf: Vec<u8> = Vec::new();
+        for pre in [&b"5;"[..], b"5;name=", b"1f ;"] {
+            for l in 0..=40usize {
+                for k in 0..=15usize {
+                    for x in [b'\r', b'\n', 0u8] {
+                        buf.clear();
+                        buf.extend_from_slice(pre);
+                        buf.extend(std::iter::repeat(b'e').take(l));
+                        buf.extend_from_slice(b"\r\n");
+                        buf.extend(std::iter::repeat(b'd').take(k));
+                        buf.push(x);
+                        buf.extend_from_slice(b"bcd\r\n0;last\r\n\r\n");
+                        one_shot(ck, &lane, &buf);
+                    }
+                }
+            }
+            if ck.full() {
+                return;
+            }
+        }
+    }));
     // every string of <= 4 symbols of the chunk alphabet, alone and in front of 24 more bytes
     tasks.push(Box::new(move |ck: &mut Checker| {
         let lane = Lane::new(Entry::Chunk, 0, 0);
@@ -1933,6 +2121,42 @@ fn corpus_pieces(q: bool) -> Vec<Corpus> {
                 }
             }));
         }
+    }
+    // an in-class edge byte and an out-of-class byte a lane or several apart, and long fields in
+    // front of 20 KiB
+    for f in FIELDS.iter().filter(|f| f.name != "chunk-digits" && f.name != "chunk-ext") {
+        let f = *f;
+        v.push(Arc::new(move |g: &mut dyn FnMut(&Lane, &[u8])| {
+            let lane = Lane::new(f.entry, f.cfg, 8);
+            let fs = f.pre.len();
+            for l in [130usize, 200, 300] {
+                let mut buf = Vec::new();
+                buf.extend_from_slice(f.pre);
+                buf.extend(std::iter::repeat(f.fill).take(l));
+                buf.extend_from_slice(f.post);
+                buf.extend(std::iter::repeat(b'b').take(if l == 200 { 20 * 1024 } else { 0 }));
+                for p1 in 0..l {
+                    for d in [8usize, 16, 32, 64, 96, 128] {
+                        let p2 = p1 + d;
+                        if p2 >= l {
+                            break;
+                        }
+                        for x in [0x09u8, 0x20, 0x21, 0x80, 0xff] {
+                            for y in [0x00u8, 0x0a, 0x1f, 0x7f] {
+                                for swap in [false, true] {
+                                    let (a, b) = if swap { (y, x) } else { (x, y) };
+                                    buf[fs + p1] = a;
+                                    buf[fs + p2] = b;
+                                    g(&lane, &buf);
+                                }
+                            }
+                        }
+                        buf[fs + p2] = f.fill;
+                    }
+                    buf[fs + p1] = f.fill;
+                }
+            }
+        }));
     }
     // three-page fields with one offending byte around each inner page boundary
     for f in FIELDS.iter().filter(|f| f.name != "chunk-digits") {
